@@ -151,6 +151,22 @@ pub fn text_size_classes(text: &str, st: &mut Stats) {
         if longest > 65_535 {
             st.class("size:unbroken-piece-longer-than-64KiB");
         }
+        // bracket nesting (only attributes can nest deeply)
+        let (mut depth, mut deepest) = (0i64, 0i64);
+        for b in text.bytes() {
+            match b {
+                b'(' | b'[' | b'{' => {
+                    depth += 1;
+                    deepest = deepest.max(depth);
+                }
+                b')' | b']' | b'}' => depth = (depth - 1).max(0),
+                b'\n' => depth = 0,
+                _ => {}
+            }
+        }
+        if deepest > 255 {
+            st.class("size:brackets-nested-deeper-than-255");
+        }
     }
 }
 
